@@ -173,8 +173,13 @@ def _playback(case, box):
     for rep in (1, 2, 3):
         pl = P.replay(env2, r.rec_id, prog)
         maps.append((P.outputs_map(pl.playback.recorded_outputs, al), P.obs_canon(pl.obs)))
+        before = {k: P.canon(pl.playback.original_recording.get_data(k)) for k in pl.playback.original_recording.get_all_keys()}
         for o in pl.playback.recorded_outputs:
             P.mutate(o.value, every=True)
+        after = {k: P.canon(pl.playback.original_recording.get_data(k)) for k in pl.playback.original_recording.get_all_keys()}
+        if before != after:
+            viols.append(viol('playback:recorded_outputs-alias-the-played-recording', 'mutating Playback.recorded_outputs changed what Playback.original_recording hands out',
+                              'independent copies', sorted(k for k in before if before[k] != after[k])))
         for k in list(pl.playback.original_recording.get_all_keys()):
             P.mutate(pl.playback.original_recording.get_data(k), every=True)
         if rep == 2:
